@@ -23,7 +23,7 @@ func CompileLuaChunk(source string, s ast.BlockStat) (kidx uint, consts []ir.Con
 	rootIrC := ir.NewCodeBuilder("<global chunk>", kp)
 	rootIrC.DeclareLocal("_ENV", rootIrC.GetFreeRegister())
 	irC := rootIrC.NewChild("<main chunk>")
-	c := &compiler{CodeBuilder: irC}
+	c := &compiler{CodeBuilder: irC, expDepth: new(int)}
 	c.compileFunctionBody(ast.Function{
 		ParList: ast.ParList{HasDots: true},
 		Body:    s,
@@ -34,11 +34,13 @@ func CompileLuaChunk(source string, s ast.BlockStat) (kidx uint, consts []ir.Con
 
 type compiler struct {
 	*ir.CodeBuilder
+	expDepth *int // depth of the expression being compiled, shared with child compilers
 }
 
 func (c *compiler) NewChild(name string) *compiler {
 	return &compiler{
 		CodeBuilder: c.CodeBuilder.NewChild(name),
+		expDepth:    c.expDepth,
 	}
 }
 
